@@ -385,6 +385,17 @@ class Runtime:
                 obj = eval(src, self.loaded.ns, dict(loc))
             except Exception:
                 continue
+            if "." in src and "[" not in src and "(" not in src and not isinstance(obj, A.SArr):
+                # attribute rebinding (obj.attr = value): havoc the attribute like a local
+                base_src, attr = src.rsplit(".", 1)
+                try:
+                    base = eval(base_src, self.loaded.ns, dict(loc))
+                    setattr(base, attr, freshers[src](obj, NS(loc)) if src in freshers else havoc_value(obj, attr))
+                except Unsupported:
+                    raise
+                except Exception:
+                    pass
+                continue
             if src in freshers:
                 freshers[src](obj, NS(loc))
             elif isinstance(obj, (A.SArr,)):
